@@ -210,10 +210,18 @@ def report_sweeps(chk, mode, results, expect_exn):
             if out not in expect_exn: kinds.append("other-exception:" + out)
             # requesting function and its caller; when everything is inlined into the scenario (no library frame): the scenario + layer
             site = "<".join(c14_fault.frames_of(p)[:2]) if c14_fault.frames_of(p) else "@%s/%s" % (r["name"], p.get("layer", mode))
+            alt_site = "<".join(c14_fault.frames_of(p)[1:3]) if len(c14_fault.frames_of(p)) >= 3 else None
             chk.count(1, key=(mode, fam, site, p.get("layer")))
             for kd in kinds:
                 nbad += 1; st["by_kind"][kd] = st["by_kind"].get(kd, 0) + 1
-                agg.add({"mode": mode, "kind": kd, "site": site, "family": fam},
+                # whether a small leaf helper is a frame of its own depends on the compiler's inlining decisions, which change when unrelated code
+                # changes: a failure whose (caller, caller's caller) pair is a known finding is that finding
+                if alt_site and chk.match_finding({"mode": mode, "kind": kd, "site": site, "family": fam}) is None \
+                        and chk.match_finding({"mode": mode, "kind": kd, "site": alt_site, "family": fam}) is not None:
+                    site_used = alt_site
+                else:
+                    site_used = site
+                agg.add({"mode": mode, "kind": kd, "site": site_used, "family": fam},
                             {"scenario": r["name"], "k": p.get("k"), "record": p, "leakinfo": r["leakinfo"].get(p.get("k")),
                              "replay_cmd": "build/c14-bin/run_fault_mpz_* %s %s 100000 ng %s" % (mode, r["name"], p.get("k"))})
         for p in r["crashes"]:
